@@ -77,8 +77,18 @@ Example:
     #XXX: need better filter on inputs
     if getattr(arg, '__module__', None) != self.__module__:
       raise TypeError("'%s' object is not a condition" % arg.__class__.__name__)
-    if not getattr(arg, '__len__', None): arg = [arg]
+    if isinstance(arg, When) or not getattr(arg, '__len__', None): arg = [arg]
     return tuple.__new__(self, arg)
+
+  # compound conditions of different kinds are never equal (And(a,b) != Or(a,b))
+  def __eq__(self, other):
+    return type(self) is type(other) and tuple.__eq__(self, other)
+
+  def __ne__(self, other):
+    return not self.__eq__(other)
+
+  def __hash__(self):
+    return hash((type(self).__name__, tuple.__hash__(self)))
 
   def __call__(self, solver, info=False):
     """check if the termination conditions are satisfied.
@@ -121,7 +131,7 @@ Example:
     """
     if isinstance(args, tuple) and len(args) == 1: args = args[0] # for pickling
     #XXX: need better filter on inputs
-    if not getattr(args, '__len__', None): args = [args]
+    if isinstance(args, When) or not getattr(args, '__len__', None): args = [args]
     #XXX: check if every arg in args has __module__ == self.__module__ ?
     return tuple.__new__(self, args)
 
@@ -145,7 +155,7 @@ Example:
     """
     if isinstance(args, tuple) and len(args) == 1: args = args[0] # for pickling
     #XXX: need better filter on inputs
-    if not getattr(args, '__len__', None): args = [args]
+    if isinstance(args, When) or not getattr(args, '__len__', None): args = [args]
     #XXX: check if every arg in args has __module__ == self.__module__ ?
     return tuple.__new__(self, args)
 
